@@ -69,9 +69,9 @@ OutsPolicySmall == {Out("ok", "-", None), Out("exc", T, None), Out("exc", U, Non
                     Out("abort", "-", None), Out("kbd", "-", None)}
 
 PConfigsA ==
-    { [retry |-> rt, rc |-> [RBase EXCEPT !.abort = ab, !.handler = ha, !.maxAtt = ma],
+    { [retry |-> rt, rc |-> [RBase EXCEPT !.abort = ab, !.handler = ha, !.maxAtt = ma, !.hooks = hk],
        bc |-> BCfg(th, 4, 2)] :
-        rt \in BOOLEAN, ab \in BOOLEAN, ha \in BOOLEAN, ma \in {1, 2}, th \in {1, 2} }
+        rt \in BOOLEAN, ab \in BOOLEAN, ha \in BOOLEAN, ma \in {1, 2}, th \in {1, 2}, hk \in BOOLEAN }
 PConfigsC07 ==
     { [retry |-> rt, rc |-> [RBase EXCEPT !.maxAtt = 2], bc |-> BCfg(th, 4, r)] :
         rt \in BOOLEAN, th \in {1, 2}, r \in {2, 3} }
@@ -83,8 +83,10 @@ OutsC07 == {Out("ok", "-", None), Out("exc", T, None), Out("exc", U, None), Out(
 PConfigsC15 ==
     { [retry |-> rt, rc |-> [RBase EXCEPT !.maxAtt = 2, !.handler = ha, !.bsleep = TRUE],
        bc |-> BCfg(1, 4, 2)] : rt \in BOOLEAN, ha \in BOOLEAN }
+\* attempt hooks: on every policy without a retry component, and on the plainest one with
 PConfigsX ==
-    { [retry |-> rt, rc |-> [RBase EXCEPT !.abort = ab, !.maxAtt = 2, !.handler = ha],
-       bc |-> BCfg(th, 4, 2)] :
-        rt \in BOOLEAN, ab \in BOOLEAN, th \in {1, 2}, ha \in BOOLEAN }
+    { c \in { [retry |-> rt, rc |-> [RBase EXCEPT !.abort = ab, !.maxAtt = 2, !.handler = ha, !.hooks = hk],
+               bc |-> BCfg(th, 4, 2)] :
+               rt \in BOOLEAN, ab \in BOOLEAN, th \in {1, 2}, ha \in BOOLEAN, hk \in BOOLEAN } :
+        c.rc.hooks => (IF c.retry THEN ~c.rc.abort /\ ~c.rc.handler ELSE ~c.rc.handler) }
 =============================================================================
